@@ -550,3 +550,92 @@ Proof.
     + destruct (HL (r', c) Hr H) as [_ G]. apply G; [exact Hid|lia|exact F].
     + exact (HF (r', c) Hr H F).
 Qed.
+
+Ltac gqargs self Hs :=
+  try solve [exact PC_batch1 | exact PC_batch2 | intros x; apply (PC_plain self x Hs)].
+
+(* a forwarded proposal / read request *)
+Lemma PC_forward self r m r' :
+  In self (l :: ids) -> r_id r = self ->
+  m_type m = MsgPropose \/ m_type m = MsgReadIndex ->
+  send r (m <| m_to := r_leader_id r |>) = Ok r' ->
+  Forall PC (r_msgs r) -> Forall PC (r_msgs r').
+Proof.
+  intros Hs Hid Hty H F. apply send_full in H. destruct H as (m' & -> & A1 & A2 & A3 & A4 & A5 & A6).
+  cbn. apply Forall_app. split; [exact F|]. constructor; [|constructor].
+  cbn in A1, A3, A6.
+  assert (Hv : is_vote_type (m_type m) = false /\
+               (negb (m_type m =? MsgPropose) && negb (m_type m =? MsgReadIndex)) = false)
+    by (destruct Hty as [E|E]; rewrite E; split; reflexivity).
+  destruct Hv as [V1 V2]. rewrite V1, V2 in A6. destruct A6 as [_ A6].
+  assert (Hn : netmsg (m_type m') /\ ~ vresp m' /\ ~ vreq m' /\ from_leader m' = false /\
+               m_type m' <> MsgReadIndexResp).
+  { unfold vresp, vreq, from_leader. rewrite A1.
+    destruct Hty as [E|E]; rewrite E; repeat split; try discriminate;
+      intros [X|X]; discriminate. }
+  destruct Hn as (N1 & N2 & N3 & N4 & N5).
+  split; [left; lia|]. split; [exact N1|]. split; [intros V; contradiction|].
+  split; [intros V; contradiction|].
+  intros Hf _. split; [exact Hf|]. split; [exact N1|]. right. right. split; [lia|]. split; assumption.
+Qed.
+
+(* the leader's step *)
+Lemma leader_step_PC hb et c (pend : N -> Prop) L m L' cc :
+  LInv ids l t hb et c pend L -> In (r_vote L) (l :: ids) ->
+  okL ids t m -> PC m ->
+  step L m = Ok (L', cc) -> Forall PC (r_msgs L) -> Forall PC (r_msgs L').
+Proof.
+  intros (I1 & I2 & I3 & I4 & I5 & I6 & I7 & I8 & I9 & I10 & _) Hv (Hcq & Htl & Hterm & _)
+         (P1 & (N1 & _) & P3 & P4 & P5) H F.
+  assert (Hs : In l (l :: ids)) by (left; reflexivity).
+  eapply (member_step_PC L m L' cc l); try eassumption; try lia.
+  - intros [r1 c1] _ Hl. cbn [fst].
+    eapply (step_leader_GQ PC l t); gqargs l Hs; eassumption.
+  - intros rr Hf. congruence.
+  - left. exact I1.
+Qed.
+
+(* the follower's step *)
+Lemma follower_step_PC hb he (hq : Prop) F m F' cc :
+  FInv l t hb he hq F -> In (r_id F) ids -> In (r_vote F) (l :: ids) ->
+  okF l t m -> PC m ->
+  step F m = Ok (F', cc) -> Forall PC (r_msgs F) -> Forall PC (r_msgs F').
+Proof.
+  intros (I1 & I2 & I3 & I4 & I5 & I6 & I7 & I8 & I9) Hid Hv
+         (Hhup & Htn & Htl & Hterm & Hfl & _) (P1 & (N1 & _) & P3 & P4 & P5) H Fq.
+  assert (Hs : In (r_id F) (l :: ids)) by (right; exact Hid).
+  eapply (member_step_PC F m F' cc (r_id F)); try eassumption; try reflexivity; try lia.
+  - intros rr C. congruence.
+  - intros [r1 c1] _ Hf Fq'. cbn [fst]. unfold step_follower in Hf.
+    assert (Hg : forall ra rb, r_id ra = r_id F -> r_term ra = t ->
+                 GQ PC (r_id F) t ra rb -> Forall PC (r_msgs ra) -> Forall PC (r_msgs rb)).
+    { intros ra rb Ia Ta [_ G] Q. apply G; [exact Ia|lia|exact Q]. }
+    destruct (m_type m =? MsgPropose) eqn:E1.
+    { apply N.eqb_eq in E1. dtop Hf; [injection Hf as <- <-; exact Fq'|].
+      dtop Hf; [injection Hf as <- <-; exact Fq'|].
+      ib Hf y Hy. injection Hf as <- <-.
+      eapply (PC_forward (r_id F)); [exact Hs|reflexivity|left; exact E1|exact Hy|exact Fq']. }
+    destruct (m_type m =? MsgAppend) eqn:E2.
+    { ib Hf y Hy. injection Hf as <- <-.
+      eapply Hg; [| |eapply (handle_append_entries_GQ PC (r_id F) t); gqargs (r_id F) Hs; exact Hy|exact Fq'];
+        [reflexivity|exact I2]. }
+    destruct (m_type m =? MsgHeartbeat) eqn:E3.
+    { ib Hf y Hy. injection Hf as <- <-.
+      eapply Hg; [| |eapply (handle_heartbeat_GQ PC (r_id F) t); gqargs (r_id F) Hs; exact Hy|exact Fq'];
+        [reflexivity|exact I2]. }
+    destruct (m_type m =? MsgSnapshot) eqn:E4.
+    { ib Hf y Hy. injection Hf as <- <-.
+      eapply Hg; [| |eapply (handle_snapshot_GQ PC (r_id F) t); gqargs (r_id F) Hs; [|exact Hy]|exact Fq'];
+        [reflexivity|exact I2|exact I1]. }
+    destruct (m_type m =? MsgTransferLeader) eqn:E5; [apply N.eqb_eq in E5; contradiction|].
+    destruct (m_type m =? MsgTimeoutNow) eqn:E6; [apply N.eqb_eq in E6; contradiction|].
+    destruct (m_type m =? MsgReadIndex) eqn:E7.
+    { apply N.eqb_eq in E7. dtop Hf; [injection Hf as <- <-; exact Fq'|].
+      ib Hf y Hy. injection Hf as <- <-.
+      eapply (PC_forward (r_id F)); [exact Hs|reflexivity|right; exact E7|exact Hy|exact Fq']. }
+    destruct (m_type m =? MsgReadIndexResp).
+    { destruct (m_entries m) as [|e [|e2 rest]]; try (injection Hf as <- <-; exact Fq').
+      ib Hf y Hy. injection Hf as <- <-. exact Fq'. }
+    injection Hf as <- <-. exact Fq'.
+  - right. exact I1.
+Qed.
